@@ -237,9 +237,13 @@ type client struct {
 	who string
 	e   *env
 	tag string // "latest" | "finalized": what the downloader's block-finality tag means
+	// onHeader (detector handle only) is told every answer of HeaderByNumber before the caller gets it (ok = answered)
+	onHeader func(key string, n uint64, hash common.Hash, ok bool)
 }
 
-func (cl *client) ChainID(ctx context.Context) (*big.Int, error) { return new(big.Int).Set(chainID), nil }
+func (cl *client) ChainID(ctx context.Context) (*big.Int, error) {
+	return new(big.Int).Set(chainID), nil
+}
 
 func (cl *client) BlockNumber(ctx context.Context) (uint64, error) {
 	cl.e.c.mu.Lock()
@@ -261,6 +265,9 @@ func (cl *client) HeaderByNumber(ctx context.Context, number *big.Int) (*types.H
 	err := cl.e.gatedRPC(ctx, cl.who, key, func(fail bool) (tr.M, error) {
 		c := cl.e.c
 		if fail {
+			if cl.onHeader != nil {
+				cl.onHeader(key, 0, common.Hash{}, false)
+			}
 			return tr.M{"res": "error"}, errTransient
 		}
 		var n uint64
@@ -272,10 +279,16 @@ func (cl *client) HeaderByNumber(ctx context.Context, number *big.Int) (*types.H
 		default:
 			n = number.Uint64()
 			if n > c.tip() {
+				if cl.onHeader != nil {
+					cl.onHeader(key, 0, common.Hash{}, false)
+				}
 				return tr.M{"res": "notfound"}, ethereum.NotFound
 			}
 		}
 		res = types.CopyHeader(c.blocks[n].hdr)
+		if cl.onHeader != nil {
+			cl.onHeader(key, n, res.Hash(), true)
+		}
 		return tr.M{"n": n, "v": c.blocks[n].v}, nil
 	})
 	return res, err
